@@ -32,6 +32,82 @@ def calls_in(fn, pred):
     return [n for n in walk_no_nested(fn) if isinstance(n, ast.Call) and pred(n)]
 
 
+def lookup_rules(repo, res, RULE="G3-LOOKUP"):
+    """the two spatial lookups filter candidates by geometry and map them to lanelet ids consistently
+    (shared with C07, whose assignment sets are exactly the results of these lookups)"""
+    lmod = repo.mod(LA)
+    fs = repo.method(LA, "LaneletNetwork", "find_lanelet_by_shape")
+    q = "LaneletNetwork.find_lanelet_by_shape"
+    rd = ReachingDefs(fs)
+    loops = [n for n in walk_no_nested(fs) if isinstance(n, ast.For)]
+    ok = len(loops) == 1 and isinstance(loops[0].iter, ast.Call) and norm(loops[0].iter.func) == "self._strtee.query" and len(loops[0].iter.args) == 1 and not loops[0].iter.keywords
+    qarg = norm(loops[0].iter.args[0]) if ok else None
+    res.check(RULE, "find_lanelet_by_shape queries the tree with the shape's geometry", ok and qarg == "%s.shapely_object" % fs.args.args[1].arg, lmod, fs, "find_lanelet_by_shape query %s" % qarg, "the tree is not queried with the geometry of the given shape", qualname=q)
+    appends = calls_in(fs, lambda c: isinstance(c.func, ast.Attribute) and c.func.attr == "append")
+    ok2 = False
+    if ok and len(appends) == 1:
+        a = appends[0]
+        inner = a.args[0]
+        guards = [(norm(t), pol) for t, pol in dominating_guards(lmod, a, stop=fs)]
+        if isinstance(inner, ast.Call) and norm(inner.func) == "self._get_lanelet_id_by_shapely_polygon" and isinstance(inner.args[0], ast.Name):
+            g = inner.args[0].id
+            defs = [norm(d.node) for d in rd.defs(g, a) if d.node is not None]
+            ok2 = defs == ["self._strtee.geometries[%s]" % loops[0].target.id] and ("%s.intersects(%s)" % (g, qarg), True) in guards
+    res.check(RULE, "find_lanelet_by_shape keeps candidates that intersect the queried geometry and maps them by the id map", ok2, lmod, fs, "find_lanelet_by_shape filter", "candidates are not filtered by `intersects` against the very geometry queried with, or the hit is mapped through another object", qualname=q)
+    rets = [n for n in walk_no_nested(fs) if isinstance(n, ast.Return)]
+    res.check(RULE, "find_lanelet_by_shape returns the collected ids", len(rets) == 1 and len(appends) == 1 and norm(rets[0].value) == norm(appends[0].func.value), lmod, fs, "find_lanelet_by_shape return", "the collected ids are not what is returned", qualname=q)
+    fp = repo.method(LA, "LaneletNetwork", "find_lanelet_by_position")
+    q = "LaneletNetwork.find_lanelet_by_position"
+    qs = calls_in(fp, lambda c: norm(c.func) == "self._strtee.query")
+    ok = len(qs) == 1
+    pred = dist = None
+    if ok:
+        kw = {k.arg: k.value for k in qs[0].keywords}
+        pred = kw.get("predicate")
+        dist = kw.get("distance")
+        pv = pred.value if isinstance(pred, ast.Constant) else None
+        ok = pv in ("dwithin", "intersects", "covered_by")
+        if pv == "dwithin":
+            rdp = ReachingDefs(fp)
+            dv = None
+            if isinstance(dist, ast.Constant):
+                dv = dist.value
+            elif isinstance(dist, ast.Name):
+                ds = [d.node for d in rdp.defs(dist.id, qs[0]) if d.node is not None]
+                if len(ds) == 1 and isinstance(ds[0], ast.Constant):
+                    dv = ds[0].value
+            ok = ok and isinstance(dv, float) and 0 <= dv <= 1e-9
+        pts = [n for n in walk_no_nested(fp) if isinstance(n, ast.Assign) and isinstance(n.targets[0], ast.Name) and n.targets[0].id == norm(qs[0].args[0])]
+        ok = ok and len(pts) == 1 and norm(pts[0].value) == "[ShapelyPoint(p) for p in %s]" % fp.args.args[1].arg
+    res.check(RULE, "find_lanelet_by_position queries all points with a boundary-inclusive predicate", ok, lmod, fp, "find_lanelet_by_position query predicate=%s" % (norm(pred) if pred is not None else None), "points on a lanelet boundary (or inside) are not reported, or not every query point is looked up", qualname=q)
+    loops = [n for n in walk_no_nested(fp) if isinstance(n, ast.For)]
+    ok = False
+    if len(loops) == 1 and isinstance(loops[0].target, ast.Tuple) and len(loops[0].target.elts) == 2 and qs:
+        inp, geo = [e.id for e in loops[0].target.elts]
+        qres = [n.targets[0].id for n in walk_no_nested(fp) if isinstance(n, ast.Assign) and n.value is qs[0] and isinstance(n.targets[0], ast.Name)]
+        body = " ; ".join(norm(s) for s in loops[0].body)
+        ok = bool(qres) and norm(loops[0].iter) == "zip(*%s)" % qres[0]
+        ok = ok and "self._strtee.geometries[%s]" % geo in body and "self._get_lanelet_id_by_shapely_polygon(" in body and "[%s].append(" % inp in body
+    res.check(RULE, "find_lanelet_by_position pairs (input index, tree index) and maps hits by the id map", ok, lmod, fp, "find_lanelet_by_position mapping", "hits are attributed to the wrong query point or mapped to the wrong lanelet id", qualname=q)
+    rets = [n for n in walk_no_nested(fp) if isinstance(n, ast.Return)]
+    ok = False
+    if len(rets) == 1:
+        rv = rets[0].value
+        if isinstance(rv, ast.Name):
+            rdp = ReachingDefs(fp)
+            ds = [d.node for d in rdp.defs(rv.id, rets[0]) if d.node is not None]
+            rv = ds[0] if len(ds) == 1 else rv
+        t = norm(rv)
+        ok = isinstance(rv, ast.ListComp) and "enumerate(%s)" % fp.args.args[1].arg in t and not rv.generators[0].ifs
+    res.check(RULE, "find_lanelet_by_position answers once per query point, in order", ok, lmod, fp, "find_lanelet_by_position result", "the result list is not aligned with the list of query points", qualname=q)
+    gi = repo.method(LA, "LaneletNetwork", "_get_lanelet_id_by_shapely_polygon")
+    rets = [n for n in walk_no_nested(gi) if isinstance(n, ast.Return)]
+    ok = len(rets) == 1 and norm(rets[0].value) == "self._lanelet_id_index_by_id[id(%s)]" % gi.args.args[1].arg
+    res.check(RULE, "_get_lanelet_id_by_shapely_polygon reads the id map by id(polygon)", ok, lmod, gi, "_get_lanelet_id_by_shapely_polygon", "tree geometries are mapped to lanelet ids by another key than the one the map is built with", qualname="LaneletNetwork._get_lanelet_id_by_shapely_polygon")
+
+    return fs
+
+
 def run(repo, res, tier):
     res.rule("G1-SHAPE-AGREE", "containment predicate, exported geometry and drawing of each shape use the same parameters", 14)
     res.rule("G2-INDEX", "spatial index mirrors lanelet polygons and is rebuilt on every construction route", 12)
@@ -233,74 +309,7 @@ def run(repo, res, tier):
     res.check("G2-INDEX", "__getstate__ drops only the tree from a copy of the state", ok, lmod, gs, "__getstate__", "pickling removes the tree from the live object or keeps an unpicklable tree", qualname="LaneletNetwork.__getstate__")
 
     # ---------------------------------------------------------------- G3
-    fs = repo.method(LA, "LaneletNetwork", "find_lanelet_by_shape")
-    q = "LaneletNetwork.find_lanelet_by_shape"
-    rd = ReachingDefs(fs)
-    loops = [n for n in walk_no_nested(fs) if isinstance(n, ast.For)]
-    ok = len(loops) == 1 and isinstance(loops[0].iter, ast.Call) and norm(loops[0].iter.func) == "self._strtee.query" and len(loops[0].iter.args) == 1 and not loops[0].iter.keywords
-    qarg = norm(loops[0].iter.args[0]) if ok else None
-    res.check("G3-LOOKUP", "find_lanelet_by_shape queries the tree with the shape's geometry", ok and qarg == "%s.shapely_object" % fs.args.args[1].arg, lmod, fs, "find_lanelet_by_shape query %s" % qarg, "the tree is not queried with the geometry of the given shape", qualname=q)
-    appends = calls_in(fs, lambda c: isinstance(c.func, ast.Attribute) and c.func.attr == "append")
-    ok2 = False
-    if ok and len(appends) == 1:
-        a = appends[0]
-        inner = a.args[0]
-        guards = [(norm(t), pol) for t, pol in dominating_guards(lmod, a, stop=fs)]
-        if isinstance(inner, ast.Call) and norm(inner.func) == "self._get_lanelet_id_by_shapely_polygon" and isinstance(inner.args[0], ast.Name):
-            g = inner.args[0].id
-            defs = [norm(d.node) for d in rd.defs(g, a) if d.node is not None]
-            ok2 = defs == ["self._strtee.geometries[%s]" % loops[0].target.id] and ("%s.intersects(%s)" % (g, qarg), True) in guards
-    res.check("G3-LOOKUP", "find_lanelet_by_shape keeps candidates that intersect the queried geometry and maps them by the id map", ok2, lmod, fs, "find_lanelet_by_shape filter", "candidates are not filtered by `intersects` against the very geometry queried with, or the hit is mapped through another object", qualname=q)
-    rets = [n for n in walk_no_nested(fs) if isinstance(n, ast.Return)]
-    res.check("G3-LOOKUP", "find_lanelet_by_shape returns the collected ids", len(rets) == 1 and len(appends) == 1 and norm(rets[0].value) == norm(appends[0].func.value), lmod, fs, "find_lanelet_by_shape return", "the collected ids are not what is returned", qualname=q)
-    fp = repo.method(LA, "LaneletNetwork", "find_lanelet_by_position")
-    q = "LaneletNetwork.find_lanelet_by_position"
-    qs = calls_in(fp, lambda c: norm(c.func) == "self._strtee.query")
-    ok = len(qs) == 1
-    pred = dist = None
-    if ok:
-        kw = {k.arg: k.value for k in qs[0].keywords}
-        pred = kw.get("predicate")
-        dist = kw.get("distance")
-        pv = pred.value if isinstance(pred, ast.Constant) else None
-        ok = pv in ("dwithin", "intersects", "covered_by")
-        if pv == "dwithin":
-            rdp = ReachingDefs(fp)
-            dv = None
-            if isinstance(dist, ast.Constant):
-                dv = dist.value
-            elif isinstance(dist, ast.Name):
-                ds = [d.node for d in rdp.defs(dist.id, qs[0]) if d.node is not None]
-                if len(ds) == 1 and isinstance(ds[0], ast.Constant):
-                    dv = ds[0].value
-            ok = ok and isinstance(dv, float) and 0 <= dv <= 1e-9
-        pts = [n for n in walk_no_nested(fp) if isinstance(n, ast.Assign) and isinstance(n.targets[0], ast.Name) and n.targets[0].id == norm(qs[0].args[0])]
-        ok = ok and len(pts) == 1 and norm(pts[0].value) == "[ShapelyPoint(p) for p in %s]" % fp.args.args[1].arg
-    res.check("G3-LOOKUP", "find_lanelet_by_position queries all points with a boundary-inclusive predicate", ok, lmod, fp, "find_lanelet_by_position query predicate=%s" % (norm(pred) if pred is not None else None), "points on a lanelet boundary (or inside) are not reported, or not every query point is looked up", qualname=q)
-    loops = [n for n in walk_no_nested(fp) if isinstance(n, ast.For)]
-    ok = False
-    if len(loops) == 1 and isinstance(loops[0].target, ast.Tuple) and len(loops[0].target.elts) == 2 and qs:
-        inp, geo = [e.id for e in loops[0].target.elts]
-        qres = [n.targets[0].id for n in walk_no_nested(fp) if isinstance(n, ast.Assign) and n.value is qs[0] and isinstance(n.targets[0], ast.Name)]
-        body = " ; ".join(norm(s) for s in loops[0].body)
-        ok = bool(qres) and norm(loops[0].iter) == "zip(*%s)" % qres[0]
-        ok = ok and "self._strtee.geometries[%s]" % geo in body and "self._get_lanelet_id_by_shapely_polygon(" in body and "[%s].append(" % inp in body
-    res.check("G3-LOOKUP", "find_lanelet_by_position pairs (input index, tree index) and maps hits by the id map", ok, lmod, fp, "find_lanelet_by_position mapping", "hits are attributed to the wrong query point or mapped to the wrong lanelet id", qualname=q)
-    rets = [n for n in walk_no_nested(fp) if isinstance(n, ast.Return)]
-    ok = False
-    if len(rets) == 1:
-        rv = rets[0].value
-        if isinstance(rv, ast.Name):
-            rdp = ReachingDefs(fp)
-            ds = [d.node for d in rdp.defs(rv.id, rets[0]) if d.node is not None]
-            rv = ds[0] if len(ds) == 1 else rv
-        t = norm(rv)
-        ok = isinstance(rv, ast.ListComp) and "enumerate(%s)" % fp.args.args[1].arg in t and not rv.generators[0].ifs
-    res.check("G3-LOOKUP", "find_lanelet_by_position answers once per query point, in order", ok, lmod, fp, "find_lanelet_by_position result", "the result list is not aligned with the list of query points", qualname=q)
-    gi = repo.method(LA, "LaneletNetwork", "_get_lanelet_id_by_shapely_polygon")
-    rets = [n for n in walk_no_nested(gi) if isinstance(n, ast.Return)]
-    ok = len(rets) == 1 and norm(rets[0].value) == "self._lanelet_id_index_by_id[id(%s)]" % gi.args.args[1].arg
-    res.check("G3-LOOKUP", "_get_lanelet_id_by_shapely_polygon reads the id map by id(polygon)", ok, lmod, gi, "_get_lanelet_id_by_shapely_polygon", "tree geometries are mapped to lanelet ids by another key than the one the map is built with", qualname="LaneletNetwork._get_lanelet_id_by_shapely_polygon")
+    fs = lookup_rules(repo, res, "G3-LOOKUP")
 
     # ---------------------------------------------------------------- G4
     asserts = [n for n in walk_no_nested(fs) if isinstance(n, ast.Assert)]
